@@ -136,7 +136,8 @@ def _concretize_offsets(model, ctx, st, oid):
     """replay a counter-model on the real GlobalOffset: the last base of every chromosome must map to offset + size - 1 (exact integers)"""
     mv = lambda t: model.eval(t, model_completion=True).as_long()
     n = min(max(mv(st.n), 1), 6)
-    sizes = [max(mv(st.size(z3.IntVal(k))), 1) for k in range(n)]
+    sizes = [max(mv(st.size(z3.IntVal(k))), 1) for k in range(n)] + [7]      # one more chromosome, so that the total of the model's sizes is itself an offset
+    n += 1
     names = ["c%d" % k for k in range(n)]
     try:
         go = _GO()(dict(zip(names, sizes)))
